@@ -423,7 +423,15 @@ class Machine:
                         saved = (self.events, self.taken, self.preset)
                         self.events, self.taken, self.preset = [], [], []
                         try:
-                            c.values[name] = self.ev(st.value, {"__module__": c.module})
+                            # class body scope: the functions and plain values defined in the class body are visible by their bare names
+                            # (a table  {key: method}  built in the class body holds plain functions, called as f(self, ...))
+                            scope = {"__module__": c.module}
+                            for mn, mst in c.members.items():
+                                if mn == name:
+                                    continue
+                                if isinstance(mst, (ast.FunctionDef, ast.AsyncFunctionDef)):
+                                    scope[mn] = FuncV(mst, c.module, owner=c, kind="static")
+                            c.values[name] = self.ev(st.value, scope)
                         except (PyRaise, Unsupported):
                             c.values[name] = Opaque(f"{c.name}.{name}")
                         finally:
